@@ -15,8 +15,11 @@ namespace vf::env {
    void set_alloc(Alloc);
    Alloc get_alloc();
    const char* alloc_name(Alloc);
-   // Forget every arena allocation.  The caller guarantees nothing allocated from the arena is used afterwards.
+   // Forget the arena allocations made since the last reset -- unless some of them are still alive (a block the library keeps
+   // for the rest of the process, e.g. an immutable function-local static table built on first use): then they are kept and
+   // every region restarts behind them.  madvise'd pages must be page-aligned: only whole regions beyond 64 MiB are returned.
    void arena_reset();
+   long long survivors_pinned();     // how many resets found survivors
 
    // Exact accounting of the calling thread's allocations (all personalities).
    struct Stats {
